@@ -6,6 +6,7 @@ import (
 	"bytes"
 	"encoding/json"
 	"fmt"
+	"github.com/spf13/afero"
 	"io"
 	"strings"
 	"time"
@@ -43,6 +44,7 @@ type c09Case struct {
 	Spec *gen.Spec `json:"spec,omitempty"`
 	Text string    `json:"text,omitempty"`
 	Lab  string    `json:"label"`
+	Seq  []string  `json:"seq,omitempty"` // files kind: writes "<encoding>:<model index>"
 }
 
 var c09Tokens = []string{"\"", "\\", "\": ", "  ", "\n", "\t", "a", "é", ",", "{", "[", ":"}
@@ -122,6 +124,96 @@ func (c09) Cases(tier string, emit func(string, interface{})) {
 	for _, f := range repoSyslFiles() {
 		emit("corpus", c09Case{File: f, Lab: f})
 	}
+	// operation sequences on one output file: every sequence of two (thorough: three) writes of
+	// {large, small, one-application} models in the encodings that share the file; after every write
+	// the file must decode to exactly the model just written
+	groups := [][]string{{"pb"}, {"json", "json-compact"}, {"textpb", "textpb-compact"}}
+	for gi, g := range groups {
+		var writes []string
+		for _, e := range g {
+			for mi := range c09FileModels {
+				writes = append(writes, fmt.Sprintf("%s:%d", e, mi))
+			}
+		}
+		var rec func(seq []string)
+		rec = func(seq []string) {
+			if len(seq) >= 2 {
+				emit("files", c09Case{Lab: fmt.Sprintf("files-%d %v", gi, seq), Seq: append([]string{}, seq...)})
+			}
+			if len(seq) == n {
+				return
+			}
+			for _, w := range writes {
+				rec(append(seq, w))
+			}
+		}
+		rec(nil)
+	}
+}
+
+var c09FileModels = []string{
+	c07Src5,
+	"A:\n    Ep:\n        ...\n",
+	"Shop [owner=\"team\"]:\n    !type Item:\n        id <: int\n        name <: string?\n    /items/{id <: int}:\n        GET ?q=string:\n            Store <- Load\n            return ok <: Item\nStore:\n    Load:\n        ...\n",
+}
+
+func c09RunFiles(cs c09Case) core.Outcome {
+	var o core.Outcome
+	o.Class = "roundtrip-ok"
+	fs := afero.NewMemMapFs()
+	names := map[string]string{"pb": "out/x.pb", "json": "out/x.pb.json", "json-compact": "out/x.pb.json", "textpb": "out/x.textpb", "textpb-compact": "out/x.textpb"}
+	var mods []*sysl.Module
+	for _, t := range c09FileModels {
+		m, err := parse.NewParser().ParseString(t)
+		if err != nil {
+			o.Gap = "file model does not compile: " + err.Error()
+			return o
+		}
+		mods = append(mods, m)
+	}
+	for step, w := range cs.Seq {
+		parts := strings.SplitN(w, ":", 2)
+		enc := parts[0]
+		var mi int
+		fmt.Sscan(parts[1], &mi)
+		m := mods[mi]
+		opt := pbutil.OutputOptions{Compact: strings.HasSuffix(enc, "compact")}
+		var err error
+		switch {
+		case enc == "pb":
+			err = pbutil.GeneratePBBinaryMessageFile(m, names[enc], fs)
+		case strings.HasPrefix(enc, "json"):
+			err = pbutil.JSONPBWithOpt(m, names[enc], fs, opt)
+		default:
+			err = pbutil.TextPBWithOpt(m, names[enc], fs, opt)
+		}
+		fail := func(sig, msg string) core.Outcome {
+			o.Class = "violation"
+			o.Violation = fmt.Sprintf("%s: after write #%d (%s) of the sequence: %s", cs.Lab, step+1, w, msg)
+			o.Sig = sig
+			return o
+		}
+		if err != nil {
+			return fail("file-write-error|"+enc, "writing fails: "+err.Error())
+		}
+		b, err := afero.ReadFile(fs, names[enc])
+		if err != nil {
+			return fail("file-missing|"+enc, "the file cannot be read back: "+err.Error())
+		}
+		if strings.HasPrefix(enc, "json") && !json.Valid(b) {
+			return fail("file-json-invalid", "the file is not well-formed JSON")
+		}
+		back, err := pbutil.FromPBByteContents(names[enc], b)
+		if err != nil {
+			return fail("file-decode-error|"+strings.SplitN(enc, "-", 2)[0], "the file cannot be decoded: "+err.Error())
+		}
+		if !proto.Equal(m, back) {
+			return fail("file-roundtrip-differs|"+strings.SplitN(enc, "-", 2)[0], "the file decodes to a different model than the one just written: "+protoDiff(m, back))
+		}
+		o.Traces++
+	}
+	o.NonTrivial = core.Hash(cs.Lab)
+	return o
 }
 
 var c07Src5 = "MA:\n    -|> MB\n    Own:\n        MB <- Sh\nMB:\n    -|> MC\n    Sh:\n        ...\nMC:\n    Deep:\n        ...\n    !type T%2EU:\n        f <: T\n    !type T%2EV:\n        g <: int\n    !type T:\n        h <: int\nMD:\n    .. * <- *:\n        Own2 [~c1]\n        MB <- Sh [k=\"v\"]\n    Own2:\n        MB <- Sh\n"
@@ -134,7 +226,9 @@ type encCfg struct {
 }
 
 var c09Encs = []encCfg{
-	{"pb", "x.pb", false, func(w io.Writer, m *sysl.Module, o pbutil.OutputOptions) error { return pbutil.GeneratePBBinaryMessage(w, m) }},
+	{"pb", "x.pb", false, func(w io.Writer, m *sysl.Module, o pbutil.OutputOptions) error {
+		return pbutil.GeneratePBBinaryMessage(w, m)
+	}},
 	{"json", "x.pb.json", false, func(w io.Writer, m *sysl.Module, o pbutil.OutputOptions) error { return pbutil.FJSONPBWithOpt(w, m, o) }},
 	{"json-compact", "x.pb.json", true, func(w io.Writer, m *sysl.Module, o pbutil.OutputOptions) error { return pbutil.FJSONPBWithOpt(w, m, o) }},
 	{"textpb", "x.textpb", false, func(w io.Writer, m *sysl.Module, o pbutil.OutputOptions) error { return pbutil.FTextPBWithOpt(w, m, o) }},
@@ -144,6 +238,9 @@ var c09Encs = []encCfg{
 func (c09) Run(c core.Case) core.Outcome {
 	var cs c09Case
 	_ = json.Unmarshal(c.Data, &cs)
+	if c.Kind == "files" {
+		return c09RunFiles(cs)
+	}
 	var o core.Outcome
 	var m *sysl.Module
 	switch {
